@@ -161,14 +161,14 @@ class Flow(object):
 
                 if isinstance(self.scope, ClassScope):
                     return MergedDict(snames)
+                elif isinstance(self.scope, SourceScope):
+                    # module level code finds a builtin until the module
+                    # rebinds it, and it also sees names bound by functions
+                    # through a global statement
+                    return MergedDict(self.scope._global_names, snames)
                 else:
                     outer_names = set(snames).difference(self.scope.locals)
-                    names = {n: snames[n] for n in outer_names}
-                    if isinstance(self.scope, SourceScope):
-                        # module level code also sees names bound by functions
-                        # through a global statement
-                        return MergedDict(self.scope._global_names, names)
-                    return names
+                    return {n: snames[n] for n in outer_names}
             else:
                 return {}
 
